@@ -174,11 +174,12 @@ def wrapT (t : TInfo) (i : Int) : Int :=
   if t.signed && r ≥ m / 2 then r - m else r
 
 /-- `x / double (max)` -/
-def scaleInD (t : TInfo) (n : Int) : Float := Float.ofInt n / Float.ofNat t.max
+def scaleInD (t : TInfo) (n : Int) : Float := (Int64.ofInt n).toFloat / (UInt64.ofNat t.max).toFloat
 /-- `x / float (max)` widened to double (integral promotion of `x`, then float division) -/
-def scaleInF (t : TInfo) (n : Int) : Float := (Float32.ofInt n / Float32.ofNat t.max).toFloat
+def scaleInF (t : TInfo) (n : Int) : Float :=
+  ((Int64.ofInt n).toFloat32 / (UInt64.ofNat t.max).toFloat32).toFloat
 /-- `(T) (c * max)` -/
-def scaleOut (t : TInfo) (c : Float) : Int := wrapT t (c * Float.ofNat t.max).toInt64.toInt
+def scaleOut (t : TInfo) (c : Float) : Int := wrapT t (c * (UInt64.ofNat t.max).toFloat).toInt64.toInt
 def scaleIn (t : TInfo) (mode : String) : Int → Float := if mode == "f" then scaleInF t else scaleInD t
 
 def toU32F32 (x : Float32) : Nat := x.toUInt32.toNat
@@ -255,7 +256,7 @@ def handle (ws : List String) : String :=
     s!"{v.r} {v.g} {v.b} {v.a}"
   | ["r2p4i", t, r, g, b, a] =>
     let ti := tinfo t
-    let si (n : Int) : Float32 := Float32.ofInt n / Float32.ofNat ti.max
+    let si (n : Int) : Float32 := (Int64.ofInt n).toFloat32 / (UInt64.ofNat ti.max).toFloat32
     hex (rgb2packedC4I si toU32F32 ⟨parseInt r, parseInt g, parseInt b, parseInt a⟩)
   | _ => "?"
 
